@@ -25,7 +25,8 @@ Variable sysctl_ps : N.
 Lemma k_open_bal root path rf fl o : bal (Rfd o) o (k_open fz cfg root path rf fl).
 Proof.
   unfold k_open, os. destruct (negb cfg); [constructor; hnf; reflexivity|].
-  apply bal_map_err_fd, w_openat2_bal.
+  destruct (N.eqb OPENAT2_OPEN_RETRIES 0); [apply bal_map_err_fd, w_openat2_bal|].
+  unfold k_open_loop. apply openat2_retry_bal.
 Qed.
 
 Lemma k_resolve_loop_bal n root path fl rs o : bal (Rfd o) o (k_resolve_loop fz n root path fl rs).
@@ -46,7 +47,7 @@ Proof.
   unfold k_resolve_partial. eapply bal_bind; [apply k_resolve_bal|]. intros [fd|e0] o1 Ho1; [constructor; exact Ho1|].
   hnf in Ho1. eapply bal_perm; [apply perm_closed_Rlk| |apply Permutation_sym, Ho1].
   generalize (partial_ancestors path) e0. intro anc.
-  induction anc as [|[p rem] rest IH]; intro last; [constructor|].
+  induction anc as [|[p rem] rest IH]; intro last; [destruct PARTIAL_UNREACHABLE_PANICS; constructor; hnf; reflexivity|].
   destruct (is_safety_violation last); [constructor; hnf; reflexivity|].
   eapply bal_bind; [apply k_resolve_bal|]. intros [fd|e] o2 Ho2; [constructor; exact Ho2|].
   hnf in Ho2. eapply bal_perm; [apply perm_closed_Rlk|apply IH|apply Permutation_sym, Ho2].
@@ -199,7 +200,8 @@ Proof.
   - apply bal_neutral_call; [neutral_solve|]. intro r. destruct (as_dents r) as [[|n l]|e].
     + apply close_ret_bal with (o' := oo); [apply perm_closed_Rsame|exact Ho1|hnf; reflexivity].
     + apply IH; assumption.
-    + destruct (N.eqb e ENOENT); apply close_ret_bal with (o' := oo); try apply perm_closed_Rsame; try exact Ho1; hnf; reflexivity.
+    + destruct (N.eqb e EINTR); [apply IH; assumption|].
+      destruct (N.eqb e ENOENT); apply close_ret_bal with (o' := oo); try apply perm_closed_Rsame; try exact Ho1; hnf; reflexivity.
   - destruct (dot_or_dotdot n); [apply IH; assumption|].
     eapply bal_bind_same; [apply perm_closed_Rsame|apply Hrec|]. intro r.
     destruct (ignore_enoent r); [apply IH; assumption|].
